@@ -18,7 +18,8 @@ MODULE = 'EmsModel.Props.C05'
 DRIVER = 'C05'
 REQUIRED = ['Ems.C05.select_vars', 'Ems.C05.select_vars_order', 'Ems.C05.select_values', 'Ems.C05.empty_refused',
             'Ems.C05.mixed_kinds_refused', 'Ems.C05.out_of_range_refused', 'Ems.C05.select_result',
-            'Ems.C05.policy_error', 'Ems.C05.policy_drop', 'Ems.C05.policy_fill']
+            'Ems.C05.policy_error', 'Ems.C05.policy_drop', 'Ems.C05.policy_fill',
+            'Ems.C05.lookupPoints_spec', 'Ems.C05.points_error_end_to_end', 'Ems.C05.points_drop_end_to_end']
 RULE = ('datasets of every convention with tagged variables (floats with missing values, ints without fill, ints with '
         '_FillValue / missing_value) on every grid kind and on no grid, 0-2 extra dimensions, random dimension order. '
         '(a) select_indexes with index lists of length 1-5 with repeats and arbitrary order, mixed kinds, empty list, '
